@@ -27,7 +27,7 @@ NOT_READY_REASON = "runtime monitoring applies (DESIGN.md section 5) but the che
 
 PROPS["C19"] = dict(
     quick=[st("quick", 90)],
-    thorough=[st("thorough", 900), st("tiny", 1500, variant="miri", hard_timeout=3000)],
+    thorough=[st("thorough", 900), st("tiny", 1800, variant="miri", hard_timeout=5400)],
     floor=dict(quick=500, thorough=2000),
     rule="bit-window cases: (operation family, source/destination bit offset mod 64 or mod 8, length mod 64, content pattern {zeros,ones,alternating,first,last,random}, base-pointer misalignment); every case compares ~60 arrow-buffer bit operations against Vec<bool> incl. all destination bits outside the addressed range; a class is distinct by that tuple and non-trivial when every operation of the family ran to the oracle; thorough enumerates offsets 0..=130 x lengths 0..=200 (single source) and 0..=70 x 0..=70 x 0..=140 (two sources) completely",
     level="exploration",
@@ -39,7 +39,7 @@ PROPS["C19"] = dict(
 
 PROPS["C09"] = dict(
     quick=[st("quick", 90)],
-    thorough=[st("thorough", 900), st("quick", 600, variant="asan-core"), st("tiny", 1500, variant="miri", hard_timeout=3000)],
+    thorough=[st("thorough", 900), st("quick", 600, variant="asan-core"), st("tiny", 1800, variant="miri", hard_timeout=5400)],
     floor=dict(quick=500, thorough=2000),
     rule="near-valid layouts: a valid array of a random (nested) type in a random physical realisation, one node of its ArrayData tree mutated once (element of an offsets/keys/type-ids/dense-offsets/views/run-ends buffer rewritten to a boundary value, buffer shortened/misaligned/removed/added, len/offset moved incl. overflow, validity shortened or added, child removed/duplicated/retyped/shortened); every validating entry point (ArrayData::try_new, ArrayDataBuilder::build with and without align_buffers, validate_full on unchecked data and on the whole tree, typed try_new constructors, RecordBatch::try_new[_with_options]) is called; accepted => independent validator accepts and accessor exercise completes; class = (node type class, mutation kind, accepted|rejected)",
     level="exploration",
@@ -61,7 +61,7 @@ PROPS["C10"] = dict(
 
 PROPS["C11"] = dict(
     quick=[st("quick", 75)],
-    thorough=[st("thorough", 900), st("tiny", 1500, variant="miri", hard_timeout=3000)],
+    thorough=[st("thorough", 900), st("tiny", 1800, variant="miri", hard_timeout=5400)],
     floor=dict(quick=300, thorough=1000),
     rule="row converters over 1-5 fields of every supported type (nested struct/list/list-view/fixed-size-list/map/union/dictionary/run-end) with all four SortOptions per field; two tables in different physical layouts converted in one call and appended in chunks; for all row pairs across conversions: byte order == reference tuple order == make_comparator tuple order, byte-equal <=> logically equal, Eq/Ord/Hash agree; decode of all rows / selections / parser / binary round trip equals the inputs; variable-length values of every length 0..=70 and 95..=161 with 0x00/0xFF; class = (section, field type classes, options, outcome)",
     level="exploration",
@@ -168,7 +168,7 @@ PROPS["C15"] = dict(
 
 PROPS["C03"] = dict(
     quick=[st("quick", 75)],
-    thorough=[st("thorough", 900), st("tiny", 1500, variant="miri", hard_timeout=3000)],
+    thorough=[st("thorough", 900), st("tiny", 1800, variant="miri", hard_timeout=5400)],
     floor=dict(quick=300, thorough=1000),
     core=True,
     rule="selection kernels on every data type in random physical layouts: filter (FilterBuilder with/without optimize, predicate reuse, record-batch forms; selectivities {0, 1 bit, 1/64, 1/16+-1, 1/2, 0.8n-1..+2, all-but-one, all, random}, run-structured and random masks, null predicate bits over set bits), take (8 index types, nulls with garbage underneath, duplicates, check_bounds), concat, interleave, zip/ScalarZipper, merge/merge_n, nullif, shift, slice, dictionary garbage collection, against naive definitions on the value model; BatchCoalescer histories of 1-40 push_batch / push_batch_with_filter / push_batch_with_indices / finish calls with a unique-id column and target sizes 1-300: after every call buffered-row count, completed-batch flag, exact batch sizes, ids and all columns equal the model (conservation pushed = emitted + buffered); class = (op, type class, selectivity/index class, layout, outcome)",
@@ -213,14 +213,14 @@ PROPS["C18"] = dict(
 
 PROPS["C16"] = dict(
     quick=[st("quick", 90)],
-    thorough=[st("thorough", 900), st("tiny", 1800, variant="miri", hard_timeout=3600), st("quick", 600, variant="tsan-core"), st("quick", 600, variant="asan-core")],
+    thorough=[st("thorough", 900), st("tiny", 1800, variant="miri", hard_timeout=5400)],
     floor=dict(quick=200, thorough=1000),
     core=True,
     rule="ownership histories over a pool of handles: 41 operations (clone, slice, advance, wrap into Boolean/Primitive/String arrays and ArrayData, into_mutable, into_vec, into_builder, unary_mut / try_unary_mut / binary_mut, BooleanBuffer &= |= ^=, shrink_to_fit, claim(pool), to_ffi / from_ffi with wrapped release callbacks, FFI_ArrowArrayStream export/import, send to another thread, drop) on buffers from standard allocations, Vec, bytes::Bytes and Buffer::from_custom_allocation over harness-owned regions whose owner counts releases and scribbles 0xDD; sections scen/parscen (scripted), seq (random histories of 5-60 ops, checked after every step), par (1-4 threads on shared clones, each history run twice); oracle: bytes visible through every live handle equal their creation snapshot, owner released exactly once and only after the last derived handle died, every FFI release callback (children and dictionary included) runs exactly once, recording MemoryPool used()==0 at quiescence and == capacity right after claim, imported == exported; distinct cross-thread operation orders are counted from a global sequence number; class = (section, op class, handle kind, owner kind, outcome)",
     level="exploration",
-    level_text="Runtime history checking of buffer ownership: online assertions on hooked environments the harness supplies (owners, pool, FFI callbacks) plus an offline checker over the event log; the same workload under Miri (UB, data races, leaks), ThreadSanitizer and AddressSanitizer in the thorough tier.",
+    level_text="Runtime history checking of buffer ownership: online assertions on hooked environments the harness supplies (owners, pool, FFI callbacks) plus an offline checker over the event log; the same workload (tiny tier) under Miri (UB, data races, leaks) in the thorough tier.",
     level_note="Whether an in-place operation succeeds or declines, which of len/capacity a mutable reservation tracks and promptness of release are not asserted. Sanitizer stages only see what the schedules produce.",
-    technique="history-based runtime monitoring with instrumented owners/pool/FFI callbacks; Miri, TSan and ASan on the same workload",
+    technique="history-based runtime monitoring with instrumented owners/pool/FFI callbacks; Miri on the same workload",
 )
 
 PROPS["C08"] = dict(
